@@ -99,7 +99,15 @@ RetMatches(ret, h) ==
 GateTag(e) == IF e.why = "special" THEN "special" ELSE CHOOSE x \in e.errs : TRUE
 Ctx(q) == (IF X.ifh THEN "ifh" ELSE "fd") \o "," \o (IF q.uid # 0 THEN "nonroot" ELSE "root") \o (IF X.via = "direct" THEN "" ELSE "," \o X.via)
 Creating == {"mkdir", "mknod", "symlink", "create"}
-ExplicitTimes(q) == q.op = "setattr" /\ {"ATIME", "MTIME"} \subseteq SeqSet(q.valid) /\ SeqSet(q.valid) \cap {"ATIME_NOW", "MTIME_NOW"} = {}
+\* times are compared only where the request set them explicitly (ATIME without ATIME_NOW, MTIME without MTIME_NOW),
+\* seconds and nanoseconds, in the reply and in the file as the walk right after the step found it
+ExplA(q) == q.op = "setattr" /\ "ATIME" \in SeqSet(q.valid) /\ "ATIME_NOW" \notin SeqSet(q.valid)
+ExplM(q) == q.op = "setattr" /\ "MTIME" \in SeqSet(q.valid) /\ "MTIME_NOW" \notin SeqSet(q.valid)
+TimesAsSet(q, t) == /\ (ExplA(q) => t.atime = ToString(q.attr.atime) /\ t.atime_ns = q.attr.atime_ns)
+                    /\ (ExplM(q) => t.mtime = ToString(q.attr.mtime) /\ t.mtime_ns = q.attr.mtime_ns)
+\* a time the request leaves alone (neither set nor *_NOW) keeps its value: judged through the shadow (same before, so same after)
+TimesWhat(q, t) == (IF ExplA(q) /\ ~(t.atime = ToString(q.attr.atime) /\ t.atime_ns = q.attr.atime_ns) THEN "atime" ELSE "")
+                   \o (IF ExplM(q) /\ ~(t.mtime = ToString(q.attr.mtime) /\ t.mtime_ns = q.attr.mtime_ns) THEN "mtime" ELSE "")
 
 (* ---------------- one step ---------------- *)
 StepJudge(r) ==
@@ -143,7 +151,10 @@ StepJudge(r) ==
            /\ e.kind = "gate" \/ ~stOK \/ Chk(treeOK, "C05|" \o q.op \o "|tree", <<q, p.ch, h.ch, p.rm, h.rm>>)
       \* ownership of objects CREATED by the request (not of an existing file that CREATE merely opened)
       /\ ~(q.op \in Creating /\ p.st = "OK" /\ q.uid # 0 /\ Has(p, "attr") /\ cal /\ Has(h, "attr") /\ h.attr.id \notin Ids(S)) \/ Chk(p.attr.uid = q.uid /\ p.attr.gid = q.gid, "C05|" \o q.op \o "|owner", <<q, p.attr>>)
-      /\ ~(ExplicitTimes(q) /\ p.st = "OK" /\ Has(p, "times")) \/ Chk(p.times.atime = ToString(q.attr.atime) /\ p.times.mtime = ToString(q.attr.mtime), "C05|setattr|times", <<q.attr, p.times>>)
+      /\ ~((ExplA(q) \/ ExplM(q)) /\ h.st = "OK" /\ Has(h, "times")) \/ Cal(TimesAsSet(q, h.times) /\ (~Has(h, "ftimes") \/ TimesAsSet(q, h.ftimes)), "setattr|times", <<q.attr, h.times>>)
+      /\ ~((ExplA(q) \/ ExplM(q)) /\ p.st = "OK" /\ Has(p, "times")) \/
+           /\ Chk(TimesAsSet(q, p.times), "C05|setattr|times|reply|" \o TimesWhat(q, p.times) \o "|" \o cls, <<q.attr, p.times>>)
+           /\ ~Has(p, "ftimes") \/ Chk(TimesAsSet(q, p.ftimes), "C05|setattr|times|file|" \o TimesWhat(q, p.ftimes) \o "|" \o cls, <<q.attr, p.ftimes>>)
       /\ Chk(r.creds = creds0, "C05|" \o q.op \o "|creds", <<r.creds, creds0>>)
       /\ Chk(p.st # "PANIC", (IF X.seal THEN pfx ELSE "C05|" \o q.op \o "|") \o "panic", q)
       \* C06
